@@ -428,6 +428,14 @@ func (rn *c10Runner) runBatch(cases []c10Case, tag string) {
 				break
 			}
 		}
+		if !timedOut && (strings.Contains(sig, "out of memory") || strings.Contains(tail, "cannot allocate")) {
+			// address-space exhaustion is a deterministic function of the input: attributed without a second attempt
+			rn.mu.Lock()
+			rn.deaths[inflight] = sig + "\n" + tail
+			rn.mu.Unlock()
+			rest = rest[idx+1:]
+			continue
+		}
 		one := []c10Case{rest[idx]}
 		in2, to2, sig2, tail2 := rn.runChild(one, tag+"r")
 		rn.mu.Lock()
@@ -442,10 +450,12 @@ func (rn *c10Runner) runBatch(cases []c10Case, tag string) {
 				sig2 = sig
 			}
 			rn.deaths[inflight] = sig2 + "\n" + tail2
+		case strings.Contains(sig+tail+sig2+tail2, "out of memory") || strings.Contains(sig+tail+sig2+tail2, "cannot allocate"):
+			// one attempt ran out of address space, the other was still page-faulting its way there when the timeout fired
+			rn.deaths[inflight] = "fatal error: out of memory\n" + tail + tail2
 		default:
 			rn.flaky = append(rn.flaky, fmt.Sprintf("case %d: attempts disagree (timeout=%v/%v, %q / %q)", inflight, timedOut, to2, sig, sig2))
 		}
-		_ = tail
 		rn.mu.Unlock()
 		rest = rest[idx+1:]
 	}
@@ -500,7 +510,7 @@ func c10(c *rig.Ctx) {
 	plans = append(plans, tgtPlan{f1, anyFile, c10Plan{exhaustive: true, fieldInst: 3}})
 	// 2. larger table file (sampled)
 	f2 := must(c10FixtureTables("tables-large", mk("tables-large"), r, 260, 0, 90))
-	plans = append(plans, tgtPlan{f2, kindIs("tablefile"), c10Plan{singles: S(180, 4000), bursts: S(120, 3000), truncs: S(100, 2000), fieldInst: S(12, 200)}})
+	plans = append(plans, tgtPlan{f2, kindIs("tablefile"), c10Plan{singles: S(100, 4000), bursts: S(60, 3000), truncs: S(60, 2000), fieldInst: S(8, 200)}})
 	// 3. snappy archive, in-memory index reader: exhaustive
 	f3 := must(c10FixtureArchive("archive-snappy", mk("archive-snappy"), r, 8, false, false, 20))
 	plans = append(plans, tgtPlan{f3, kindIs("archive"), c10Plan{exhaustive: true, fieldInst: 3}})
@@ -528,8 +538,8 @@ func c10(c *rig.Ctx) {
 	plans = append(plans, tgtPlan{f6, kindIs("journalidx"), c10Plan{singles: S(25, 200), bursts: S(10, 100), truncs: S(20, 200), fieldInst: S(4, 30)}})
 	// 7. journal large enough for the writer to flush index metadata: reopen is served from journal.idx
 	f7 := must(c10FixtureJournal("journal-indexed", mk("journal-indexed"), r, []int{16500, 6, 5}, 3))
-	plans = append(plans, tgtPlan{f7, kindIs("journal"), c10Plan{singles: S(10, 400), bursts: S(4, 150), truncs: S(10, 300), fieldInst: S(3, 60)}})
-	plans = append(plans, tgtPlan{f7, kindIs("journalidx"), c10Plan{singles: S(12, 500), bursts: S(5, 200), truncs: S(10, 300), fieldInst: S(3, 60)}})
+	plans = append(plans, tgtPlan{f7, kindIs("journal"), c10Plan{singles: S(6, 400), bursts: S(3, 150), truncs: S(6, 300), fieldInst: S(2, 60)}})
+	plans = append(plans, tgtPlan{f7, kindIs("journalidx"), c10Plan{singles: S(8, 500), bursts: S(3, 200), truncs: S(6, 300), fieldInst: S(2, 60)}})
 
 	// cases: first the unmutated stores (the oracle must call them model-equal), then the faults
 	nextID := 0
@@ -590,7 +600,7 @@ func c10(c *rig.Ctx) {
 		batches = append(batches, batchT{cases[i:j], fmt.Sprint(len(batches))})
 		i = j
 	}
-	rn := &c10Runner{c: c, fixturesDir: fxDir, scratch: c.TempDir("c10run"), timeoutMs: 30000, allocLimit: 512,
+	rn := &c10Runner{c: c, fixturesDir: fxDir, scratch: c.TempDir("c10run"), timeoutMs: 15000, allocLimit: 512,
 		results: map[int]c10Result{}, deaths: map[int]string{}, hangs: map[int]bool{}}
 	workers := runtime.NumCPU() - 4
 	if workers > 12 {
@@ -619,6 +629,13 @@ func c10(c *rig.Ctx) {
 	}
 	close(ch)
 	wg.Wait()
+	// cases left without a verdict (a child that failed between cases) get one more, isolated, attempt
+	for i := range cases {
+		id := cases[i].ID
+		if _, ok := rn.results[id]; !ok && !rn.hangs[id] && rn.deaths[id] == "" {
+			rn.runBatch(cases[i:i+1], "m")
+		}
+	}
 
 	// ---- verdicts, in case order ----
 	for id, fxid := range pristine {
